@@ -136,7 +136,8 @@ func RunWalks(t *testing.T, ad Adapter, root sdk.Context, dump func(sdk.Context)
 	}
 	defer out.Close()
 	nWalks, maxLen := envInt("VERIF_WALKS", 20), envInt("VERIF_WALKLEN", 12)
-	seed := uint64(envInt("VERIF_SEED", 1))*2654435761 + 12345
+	base := uint64(envInt("VERIF_SEED", 1))*2654435761 + 12345
+	seed := base
 	next := func() uint64 { // xorshift64*: identical in every process
 		seed ^= seed >> 12
 		seed ^= seed << 25
@@ -144,7 +145,15 @@ func RunWalks(t *testing.T, ad Adapter, root sdk.Context, dump func(sdk.Context)
 		return seed * 2685821657736338717
 	}
 	okIdx := g.okIndex()
-	for wk := 0; wk < nWalks; wk++ {
+	// VERIF_WALK_ORDER=rev executes the same walks in the opposite order: every walk runs on its own branch of the
+	// same root state, so its result must not depend on what the PROCESS executed (and discarded) before
+	rev := os.Getenv("VERIF_WALK_ORDER") == "rev"
+	for i := 0; i < nWalks; i++ {
+		wk := i
+		if rev {
+			wk = nWalks - 1 - i
+		}
+		seed = base + uint64(wk+1)*0x9E3779B97F4A7C15 // the walk's choices depend on its index only
 		ctx, _ := root.CacheContext()
 		ctx = ctx.WithEventManager(sdk.NewEventManager())
 		state := g.Init
